@@ -183,6 +183,7 @@ Definition op_hyps (e : env) (st : state) (o : op) : Prop :=
       be_hyps e (sfs st) paths (get (sfs st) (hd 0 paths))
               (adj_new procs milli (get (sfs st) (hd 0 paths))) = true
   | OExpire _ => True
+  | OCall ls => hyps_ok e (sfs st) ls = true
   end.
 
 (* every call of the history meets the hypotheses of the property in the state it starts from *)
@@ -201,13 +202,20 @@ Definition plain_op (e : env) (o : op) : Prop :=
   | ORec _ _ => True
   | OBe _ _ _ => False
   | OAdj _ _ _ => False
+  | OCall ls => noq_batch e ls
   end.
+
+(* the hypotheses judged for a call of a modelled caller are those of [hyps_ok] minus the order *)
+Lemma hyps_ok_call e fs ls : hyps_ok e fs ls = true -> hyps_call e fs ls = true.
+Proof.
+  unfold hyps_ok, hyps_call. rewrite !andb_true_iff. intros [[[[[H1 H2] H3] H4] H5] H6]. auto.
+Qed.
 
 Local Opaque adj_new.
 
 Lemma step_inv e st o : inv e st -> op_hyps e st o -> inv e (fst (step_op e st o)).
 Proof.
-  intros [Hv Hc] Ho. destruct o as [ls|k|paths old new|paths new|paths procs milli]; cbn [step_op op_hyps] in *.
+  intros [Hv Hc] Ho. destruct o as [ls|k|paths old new|paths new|paths procs milli|ls]; cbn [step_op op_hyps] in *.
   - apply hyps_ok_hyps in Ho. split.
     + apply leveled_valid_after; assumption.
     + apply leveled_coherent; assumption.
@@ -226,6 +234,9 @@ Proof.
     + split.
       * apply be_valid_after; assumption.
       * apply be_coherent; assumption.
+  - apply hyps_ok_hyps in Ho. split.
+    + apply leveled_valid_after; assumption.
+    + apply leveled_coherent; assumption.
 Qed.
 
 Lemma run_hist_cons e st o r :
@@ -243,7 +254,7 @@ Proof.
   induction ops as [|o r IH]; intros st Hinv Hh; [reflexivity|].
   destruct Hh as [Ho Hr]. pose proof (step_inv e st o Hinv Ho) as Hinv'.
   specialize (IH _ Hinv' Hr). destruct Hinv as [Hv Hc].
-  rewrite run_hist_cons. destruct o as [ls|k|paths old new|paths new|paths procs milli]; cbn [hist_code].
+  rewrite run_hist_cons. destruct o as [ls|k|paths old new|paths new|paths procs milli|ls]; cbn [hist_code].
   - cbn [op_hyps] in Ho. rewrite Ho.
     destruct (leveled_hard e st ls Ho Hc) as (H1 & H2 & H3). cbn [step_op] in *.
     pose proof (prop_code_soft e (sfs st) ls _ _ Hv H1 H2 H3) as Hs.
@@ -261,6 +272,11 @@ Proof.
     destruct (be_hard e st paths _ _ Ho Hc) as (H1 & H2 & H3). cbn [step_op] in *. cbn zeta in *.
     pose proof (prop_code_soft e (sfs st) [be_updaters paths (adj_new procs milli (get (sfs st) (hd 0 paths)))] _ _ Hv H1 H2 H3) as Hs.
     match goal with |- context [if ?c =? 0 then _ else _] => destruct (c =? 0) end; [exact IH|exact Hs].
+  - cbn [op_hyps] in Ho. rewrite (hyps_ok_call _ _ _ Ho).
+    destruct (leveled_hard e st ls Ho Hc) as (H1 & H2 & H3). cbn [step_op] in *.
+    pose proof (prop_code_soft e (sfs st) ls _ _ Hv H1 H2 H3) as Hs.
+    destruct (prop_code e (sfs st) ls (snd (leveled_update e st ls)) (sfs (fst (leveled_update e st ls))) =? 0);
+      [exact IH|exact Hs].
 Qed.
 
 (* the whole property for histories that do not touch cpu.max on cgroup v2 *)
@@ -272,7 +288,7 @@ Proof.
   destruct Hh as [Ho Hr]. pose proof (step_inv e st o Hinv Ho) as Hinv'.
   inversion Hp as [|? ? Hpo Hpr]. subst.
   specialize (IH _ Hinv' Hr Hpr). destruct Hinv as [Hv Hc].
-  rewrite run_hist_cons. destruct o as [ls|k|paths old new|paths new|paths procs milli]; cbn [hist_code].
+  rewrite run_hist_cons. destruct o as [ls|k|paths old new|paths new|paths procs milli|ls]; cbn [hist_code].
   - cbn [op_hyps plain_op] in *. rewrite Ho.
     pose proof (leveled_batch_holds e st ls Ho Hc Hpo) as Hb. cbn [step_op] in *.
     apply (prop_code_spec e (sfs st) ls _ _ Hv) in Hb. rewrite Hb. cbn [Z.eqb]. exact IH.
@@ -282,6 +298,9 @@ Proof.
     pose proof (rec_batch_holds e st paths new Ho Hc) as Hb. cbn [step_op] in *.
     apply (prop_code_spec e (sfs st) [rec_updaters paths new] _ _ Hv) in Hb. rewrite Hb. cbn [Z.eqb]. exact IH.
   - contradiction.
+  - cbn [op_hyps plain_op] in *. rewrite (hyps_ok_call _ _ _ Ho).
+    pose proof (leveled_batch_holds e st ls Ho Hc Hpo) as Hb. cbn [step_op] in *.
+    apply (prop_code_spec e (sfs st) ls _ _ Hv) in Hb. rewrite Hb. cbn [Z.eqb]. exact IH.
 Qed.
 
 (* ---------- what is false of the faithful model ---------- *)
@@ -334,7 +353,7 @@ Definition merge_step_old (e : env) (st : state) (u : updater) : state * list wr
 
 Definition leveled_update_old (e : env) (st : state) (levels : list (list updater)) : state * list write :=
   let '(s1, t1) := run (merge_step_old e) st (concat levels) in
-  let '(s2, t2) := run (exact_step e) s1 (concat (rev levels)) in
+  let '(s2, t2) := run (exact_step e) s1 (concat (map (@rev updater) (rev levels))) in
   (s2, t1 ++ t2).
 
 Definition d3_env : env := mkEnv 0 [(0, 0); (1, 0)] [(1, 0)].
